@@ -371,7 +371,8 @@ def run(ctx):
         'exit(), exceptions and socket faults are injected at: constructor (bad config), init (bad source address; second '
         'output address in use; subclass init after super().init()), setup, k-th process, first socket read of the k-th '
         'recv, first socket operation of the k-th send, shutdown, subclass fini after super().fini()',
-        'Filter.Runner / multi-process operation and loop_exc=False are outside this check',
+        'Filter.Runner is driven with its child processes and their events replaced by plain objects (Runner.tla: the '
+        'supervision logic, not the operating system\'s process handling); loop_exc=False is outside this check',
     ]
     tmp = spec_scratch('c08_')
     pool = mp.get_context('fork').Pool(common.NCPU, initializer=_pool_init)
@@ -570,6 +571,8 @@ def run(ctx):
     rep.exhaustive = total['ndrift'] == 0
     from . import c08_proto
     c08_proto.stage(rep, ctx)          # C08 at the level of the protocol specification (OFP.tla)
+    from . import c08_runner
+    c08_runner.stage(rep, ctx)         # the multi-process supervisor Filter.Runner (Runner.tla)
     return rep.finish()
 
 
@@ -602,6 +605,10 @@ def replay(ctx):
         print(f'replay of {ctx.replay}: exit_after={o["value"]!r} {wit["role"]} period {wit["period_ms"]} ms')
         print(f'  observed: {o["F"]}')
         v = H.judge_exit_after(wit['form'], wit['T'], wit['role'], wit['period_ms'], o)
+    elif mode == 'runner':
+        from . import c08_runner
+        print(f'replay of {ctx.replay}: Runner.tla behaviour on the real Filter.Runner, {wit["n"]} children, stop_exit={wit["stop_exit"]}')
+        v = c08_runner.replay_witness(wit)
     else:
         raise MachineryError(f'unknown replay mode {mode!r}')
     rc = 0
